@@ -400,6 +400,23 @@ def bvExp (s : Simp) (size : Nat) (x : Rep) (osize : Nat) (y : Rep)
         else symbolic
   | .sym _ => symbolic
 
+/-- the symbolic path of `addmod`: widen by 8 bits so that the sum cannot overflow, then reduce -/
+def bvAddmodWide (s : Simp) (size : Nat) (x : Rep) (osize : Nat) (y : Rep) (msize : Nat) (m : Rep)
+    (abs : Option String) : Except PyErr HV :=
+  let newsize := size + 8
+  match reBV s (.bv size x) newsize, reBV s (.bv osize y) newsize, reBV s (.bv msize m) newsize with
+  | .bv s1 a1, .bv s2 a2, .bv s3 a3 => do
+    let r1 ← bvAdd s s1 a1 s2 a2
+    match r1 with
+    | .bv rs1 rr1 => do
+      let r2 ← bvMod s rs1 rr1 s3 a3 abs
+      if rs1 ≠ newsize then .error .valueError
+      else match r2 with
+        | .bv rs2 _ => if rs2 ≠ newsize then .error .valueError else .ok (reBV s r2 size)
+        | _ => .error .typeError
+    | _ => .error .typeError
+  | _, _, _ => .error .typeError
+
 def bvAddmod (s : Simp) (size : Nat) (x : Rep) (osize : Nat) (y : Rep) (msize : Nat) (m : Rep)
     (abs : Option String) : Except PyErr HV := do
   sizeCheck size osize
@@ -408,20 +425,24 @@ def bvAddmod (s : Simp) (size : Nat) (x : Rep) (osize : Nat) (y : Rep) (msize : 
   | .con a, .con b, .con n =>
     if n = 0 then .ok (.bv msize m)
     else .ok (mkBV s (.int ((a + b) % n : Nat)) size)
-  | _, _, _ =>
-    let newsize := size + 8
-    match reBV s (.bv size x) newsize, reBV s (.bv osize y) newsize, reBV s (.bv msize m) newsize with
-    | .bv s1 a1, .bv s2 a2, .bv s3 a3 => do
-      let r1 ← bvAdd s s1 a1 s2 a2
-      match r1 with
-      | .bv rs1 rr1 => do
-        let r2 ← bvMod s rs1 rr1 s3 a3 abs
-        if rs1 ≠ newsize then .error .valueError
-        else match r2 with
-          | .bv rs2 _ => if rs2 ≠ newsize then .error .valueError else .ok (reBV s r2 size)
-          | _ => .error .typeError
-      | _ => .error .typeError
-    | _, _, _ => .error .typeError
+  | _, _, _ => bvAddmodWide s size x osize y msize m abs
+
+/-- the symbolic path of `mulmod`: double the width so that the product cannot overflow, then reduce -/
+def bvMulmodWide (s : Simp) (size : Nat) (x : Rep) (osize : Nat) (y : Rep) (msize : Nat) (m : Rep)
+    (mulAbs modAbs : Option String) : Except PyErr HV :=
+  let newsize := size * 2
+  match reBV s (.bv size x) newsize, reBV s (.bv osize y) newsize, reBV s (.bv msize m) newsize with
+  | .bv s1 a1, .bv s2 a2, .bv s3 a3 => do
+    let r1 ← bvMul s s1 a1 s2 a2 mulAbs
+    match r1 with
+    | .bv rs1 rr1 => do
+      let r2 ← bvMod s rs1 rr1 s3 a3 modAbs
+      if rs1 ≠ newsize then .error .valueError
+      else match r2 with
+        | .bv rs2 _ => if rs2 ≠ newsize then .error .valueError else .ok (reBV s r2 size)
+        | _ => .error .typeError
+    | _ => .error .typeError
+  | _, _, _ => .error .typeError
 
 def bvMulmod (s : Simp) (size : Nat) (x : Rep) (osize : Nat) (y : Rep) (msize : Nat) (m : Rep)
     (mulAbs modAbs : Option String) : Except PyErr HV := do
@@ -431,20 +452,7 @@ def bvMulmod (s : Simp) (size : Nat) (x : Rep) (osize : Nat) (y : Rep) (msize : 
   | .con a, .con b, .con n =>
     if n = 0 then .ok (.bv msize m)
     else .ok (mkBV s (.int ((a * b) % n : Nat)) size)
-  | _, _, _ =>
-    let newsize := size * 2
-    match reBV s (.bv size x) newsize, reBV s (.bv osize y) newsize, reBV s (.bv msize m) newsize with
-    | .bv s1 a1, .bv s2 a2, .bv s3 a3 => do
-      let r1 ← bvMul s s1 a1 s2 a2 mulAbs
-      match r1 with
-      | .bv rs1 rr1 => do
-        let r2 ← bvMod s rs1 rr1 s3 a3 modAbs
-        if rs1 ≠ newsize then .error .valueError
-        else match r2 with
-          | .bv rs2 _ => if rs2 ≠ newsize then .error .valueError else .ok (reBV s r2 size)
-          | _ => .error .typeError
-      | _ => .error .typeError
-    | _, _, _ => .error .typeError
+  | _, _, _ => bvMulmodWide s size x osize y msize m mulAbs modAbs
 
 /-- `self.signextend(size)` with `size` a Python int (byte index) -/
 def bvSignextend (s : Simp) (size : Nat) (x : Rep) (b : Nat) : Except PyErr HV :=
@@ -654,5 +662,39 @@ def HV.WF : HV → Prop
 def HV.IsWord : HV → Prop
   | .bv size _ => size = 256
   | .bool _ => True
+
+/-! ### promptness: the size of the Python integers the concrete paths create -/
+
+/-- bit length of the largest intermediate of `pow(b, e, m)` (square-and-multiply, see `powMod`) -/
+def powModCost (b e m : Nat) : Nat :=
+  if h : e = 0 then 1
+  else
+    max (bitLength (b * b))
+      (max (powModCost ((b * b) % m) (e / 2) m) (bitLength (b * powMod ((b * b) % m) (e / 2) m)))
+termination_by e
+decreasing_by omega
+
+/-- the Python int behind a concrete stack item -/
+def conVal : HV → Option Nat
+  | .bv _ (.con n) => some n
+  | .bool (.con b) => some (if b then 1 else 0)
+  | _ => none
+
+/-- Bit length of the largest Python integer the model's int-backed paths create for one instruction
+    (an annotation of `execWord`, read off the concrete branches above: `a + b`, `a * b`, `x << k` with
+    `k < 256`, `pow(a, b, 2**256)`, `x - (1 << 256)` in `to_signed`; every other branch creates no integer wider
+    than an operand, and symbolic operands create none). The unbounded alternative `a ** b` would make the
+    EXP line `bitLength (a ^ b)`. -/
+def opCost (op : WordOp) (args : List HV) : Nat :=
+  match op, args.map conVal with
+  | .ADD, [some a, some b] => bitLength (a + b)
+  | .ADDMOD, some a :: some b :: _ => bitLength (a + b)
+  | .MUL, [some a, some b] => bitLength (a * b)
+  | .MULMOD, some a :: some b :: _ => bitLength (a * b)
+  | .EXP, [some a, some b] => if b ≤ 1 then 256 else powModCost a b (2 ^ 256)
+  | .SHL, [some k, some x] => if k ≥ 256 then 256 else bitLength (x * 2 ^ k)
+  | .SLT, _ => 257
+  | .SGT, _ => 257
+  | _, _ => 256
 
 end HalmosVerif.Model
